@@ -97,7 +97,7 @@ func init() {
 			"distinct_nontrivial counts distinct (entity-kind counts, universe sizes, association count, zone) signatures of messages with at least one entity",
 		Cases: func(tier string) int {
 			if tier == "thorough" {
-				return 120000 + len(rtSizeCases(tier))
+				return 400000 + len(rtSizeCases(tier))
 			}
 			return 20000 + len(rtSizeCases(tier))
 		},
